@@ -4,14 +4,15 @@ package main
 // (callee contract) or inlined (no contract / `inline`).  Every check becomes an Obligation.
 
 import (
-	"time"
 	"bytes"
 	"fmt"
 	"go/ast"
 	"go/printer"
 	"go/token"
 	"go/types"
+	"sort"
 	"strings"
+	"time"
 )
 
 type Obligation struct {
@@ -68,28 +69,28 @@ type Frame struct {
 }
 
 type Exec struct {
-	vc       *VC
-	top      *FuncInfo
-	frames   []*Frame
-	obls     []*Obligation
-	spec     int
-	oldSt    *State
-	siteSeen map[string]int
-	conts    [][]ast.Stmt
-	nInline  int
+	vc           *VC
+	top          *FuncInfo
+	frames       []*Frame
+	obls         []*Obligation
+	spec         int
+	oldSt        *State
+	siteSeen     map[string]int
+	conts        [][]ast.Stmt
+	nInline      int
 	pendingLabel string
-	assumed  map[string]bool // assumptions used (models, pure externals, ...)
-	bounded  string
-	unroll   int
-	boundObjs []types.Object
-	assuming int
-	loopEntry *State
-	loopHead  *State
-	mute int // >0: checks are assumed, not recorded (auxiliary executions)
-	rangeIdx []types.Object // hidden index variables of the enclosing range loops (innermost last)
+	assumed      map[string]bool // assumptions used (models, pure externals, ...)
+	bounded      string
+	unroll       int
+	boundObjs    []types.Object
+	assuming     int
+	loopEntry    *State
+	loopHead     *State
+	mute         int            // >0: checks are assumed, not recorded (auxiliary executions)
+	rangeIdx     []types.Object // hidden index variables of the enclosing range loops (innermost last)
 }
 
-func (ex *Exec) frame() *Frame { return ex.frames[len(ex.frames)-1] }
+func (ex *Exec) frame() *Frame     { return ex.frames[len(ex.frames)-1] }
 func (ex *Exec) info() *types.Info { return ex.frame().info }
 
 func (ex *Exec) src(n ast.Node) string {
@@ -738,17 +739,17 @@ func (ex *Exec) execGo(s *ast.GoStmt, st *State) {
 // loops
 
 type writes struct {
-	vars  map[types.Object]bool
-	globs map[string]types.Type
-	fams  map[string]bool
-	all   bool
-	calls map[string]bool // ghost call counters (interface methods with contracts) possibly advanced
-	ghosts map[string]bool // other ghost values ([]byte snapshots) possibly replaced
-	binReads map[string]types.Type // ghost lastreadof(T) possibly replaced
-	ints     map[string]bool       // integer ghosts possibly replaced
-	bools    map[string]bool       // boolean ghosts possibly replaced
-	layerParser bool               // a gopacket parser decodes into its registered layers
-	aeadOpen, aeadSeal bool        // the ghost trace of the last AEAD open / seal possibly replaced
+	vars               map[types.Object]bool
+	globs              map[string]types.Type
+	fams               map[string]bool
+	all                bool
+	calls              map[string]bool       // ghost call counters (interface methods with contracts) possibly advanced
+	ghosts             map[string]bool       // other ghost values ([]byte snapshots) possibly replaced
+	binReads           map[string]types.Type // ghost lastreadof(T) possibly replaced
+	ints               map[string]bool       // integer ghosts possibly replaced
+	bools              map[string]bool       // boolean ghosts possibly replaced
+	layerParser        bool                  // a gopacket parser decodes into its registered layers
+	aeadOpen, aeadSeal bool                  // the ghost trace of the last AEAD open / seal possibly replaced
 }
 
 func newWrites() *writes {
@@ -756,33 +757,34 @@ func newWrites() *writes {
 }
 
 func (ex *Exec) havocWrites(w *writes, st *State, onlyOuter bool) {
-	for obj := range w.vars {
+	for _, obj := range sortedObjs(w.vars) {
 		if v, ok := st.env[obj]; ok {
 			nv := freshValue(obj.Name(), v.T)
 			st.env[obj] = nv
 			st.assumeValid(nv)
 		}
 	}
-	for g, t := range w.globs {
+	for _, g := range sortedKeys(w.globs) {
+		t := w.globs[g]
 		nv := freshValue("G|"+g, t)
 		st.glob[g] = nv
 		st.assumeValid(nv)
 	}
-	for f := range w.fams {
+	for _, f := range sortedKeys(w.fams) {
 		st.havocFamily(f)
 	}
-	for name := range w.calls {
+	for _, name := range sortedKeys(w.calls) {
 		// this ghost call counter may have advanced
 		cv := freshVar("ghost|calls:"+name, sortMath)
 		st.ghost["calls:"+name] = scalarV(mathintType, cv)
 		st.assume(mkCmp("le", mkInt(sortMath, 0), cv))
 	}
-	for g := range w.ghosts {
+	for _, g := range sortedKeys(w.ghosts) {
 		nv := freshValue("ghost|"+g, types.NewSlice(ghostByteT))
 		st.assumeValid(nv)
 		st.ghost[g] = nv
 	}
-	for k := range w.bools {
+	for _, k := range sortedKeys(w.bools) {
 		st.ghost[k] = boolV(freshVar("ghost|"+k, sortBool))
 	}
 	if w.aeadOpen {
@@ -791,12 +793,13 @@ func (ex *Exec) havocWrites(w *writes, st *State, onlyOuter bool) {
 	if w.aeadSeal {
 		havocAEADTrace(st, "seal")
 	}
-	for k := range w.ints {
+	for _, k := range sortedKeys(w.ints) {
 		nv := freshValue("ghost|"+k, types.Typ[types.Int])
 		st.assumeValid(nv)
 		st.ghost[k] = nv
 	}
-	for k, t := range w.binReads {
+	for _, k := range sortedKeys(w.binReads) {
+		t := w.binReads[k]
 		nv := freshValue("ghost|binread", t)
 		st.assumeValid(nv)
 		st.ghost["bin.last:"+k] = nv
@@ -850,8 +853,9 @@ func (ex *Exec) nextLoopOrd() string {
 }
 
 // runLoop: generic cut-point treatment.
-//   cond(st) returns the continuation condition (nil = true), evaluated in the given state
-//   body(st) executes one iteration including the post statement handling via post(st)
+//
+//	cond(st) returns the continuation condition (nil = true), evaluated in the given state
+//	body(st) executes one iteration including the post statement handling via post(st)
 func (ex *Exec) runLoop(n ast.Node, label string, st *State, w *writes, cond func(*State) *Term, body func(*State), post func(*State), extraInv func(*State) []*Term) {
 	f := ex.frame()
 	ord := ex.nextLoopOrd()
@@ -1737,4 +1741,20 @@ func havocAEADTrace(st *State, op string) {
 	for _, k := range keys {
 		st.ghost["aead."+op+"."+k] = freshValue("aead."+op+"."+k, bs)
 	}
+}
+
+// Deterministic iteration: fresh names are numbered in creation order, so the order in which havocked variables are
+// visited decides the text of the SMT scripts - and with it how long the solvers take. Maps are visited in key order.
+func sortedObjs(m map[types.Object]bool) []types.Object {
+	os := make([]types.Object, 0, len(m))
+	for o := range m {
+		os = append(os, o)
+	}
+	sort.Slice(os, func(i, j int) bool {
+		if os[i].Pos() != os[j].Pos() {
+			return os[i].Pos() < os[j].Pos()
+		}
+		return os[i].Name() < os[j].Name()
+	})
+	return os
 }
